@@ -158,3 +158,81 @@ Proof.
   - replace ((0 <=? 12)%Z && (12 <=? len - 16)%Z && (len - 16 <=? len)%Z) with true by lia. reflexivity.
   - replace ((0 <=? 12)%Z && (12 <=? len)%Z && (len <=? len)%Z) with true by lia. reflexivity.
 Qed.
+
+(* ---------- margins: the frame with room before and after it in its pooled slice ---------- *)
+(* FrameDataWithMargins(offset, overhead) on a frame of [len] bytes that starts at [psoff] in a
+   pooled slice of [lps] bytes: granted exactly when the requested room exists — an exact fit
+   included — and then it is the slice [psoff-offset, psoff+len+overhead); no request with
+   non-negative margins evaluates a slice expression out of bounds. *)
+Theorem go_margins_spec : forall len lps psoff offset overhead,
+  (0 <= len)%Z -> (0 <= psoff)%Z -> (0 <= offset)%Z -> (0 <= overhead)%Z ->
+  go_FrameV1_FrameDataWithMargins len lps psoff offset overhead =
+    if ((offset <=? psoff)%Z && (psoff + len + overhead <=? lps)%Z)
+    then DOk [psoff - offset; psoff + len + overhead]%Z
+    else if (offset <=? psoff)%Z then DErr 2 else DErr 1.
+Proof.
+  intros len lps psoff offset overhead H1 H2 H3 H4. unfold go_FrameV1_FrameDataWithMargins, go_inr.
+  destruct (psoff - offset <? 0)%Z eqn:Hs.
+  - replace (offset <=? psoff)%Z with false by lia. reflexivity.
+  - replace (offset <=? psoff)%Z with true by lia. cbn [andb].
+    destruct (lps <? psoff + len + overhead)%Z eqn:He.
+    + replace (psoff + len + overhead <=? lps)%Z with false by lia. reflexivity.
+    + replace (psoff + len + overhead <=? lps)%Z with true by lia.
+      replace ((0 <=? psoff - offset)%Z && (psoff - offset <=? psoff + len + overhead)%Z) with true by lia.
+      reflexivity.
+Qed.
+
+(* MessageDataWithOffset(offset) on a parsed frame: the message with [offset] bytes of room in
+   front of it, refused when the room is not there, never out of bounds *)
+Theorem go_message_with_offset_spec : forall d ix offset, parse d = Ok ix -> (0 <= offset)%Z ->
+  go_FrameV1_MessageDataWithOffset (Z.of_nat (length d)) (Z.of_nat (mi ix)) (Z.of_nat (ai ix)) offset =
+    if (offset <=? Z.of_nat (mi ix) + 2)%Z then DOk [Z.of_nat (mi ix) + 2 - offset; Z.of_nat (ai ix)]%Z else DErr 1.
+Proof.
+  intros d ix offset Hp Ho. destruct (parse_accessors_in_range d ix Hp) as (H1 & H2 & H3 & H4).
+  unfold go_FrameV1_MessageDataWithOffset, go_inr.
+  destruct (Z.of_nat (mi ix) + 2 - offset <? 0)%Z eqn:Hs.
+  - replace (offset <=? Z.of_nat (mi ix) + 2)%Z with false by lia. reflexivity.
+  - replace (offset <=? Z.of_nat (mi ix) + 2)%Z with true by lia.
+    replace ((0 <=? Z.of_nat (mi ix) + 2 - offset)%Z && (Z.of_nat (mi ix) + 2 - offset <=? Z.of_nat (ai ix))%Z && (Z.of_nat (ai ix) <=? Z.of_nat (length d))%Z) with true by lia.
+    reflexivity.
+Qed.
+
+Lemma margins_translated : go_FrameV1_FrameDataWithMargins_translated && go_FrameV1_MessageDataWithOffset_translated = true.
+Proof. reflexivity. Qed.
+
+(* ---------- parsePingHeader (router/ping.go) ---------- *)
+(* The two library verdicts the function depends on (cbor.Unmarshal of the header bytes, the
+   ping-type pattern) are oracle parameters; the model's hdr_ok is their conjunction.  For every
+   message the translated function splits it where the model does, or refuses it where the model
+   does, and evaluates no index or slice expression out of bounds. *)
+From Verif Require Import Malformed.
+Definition dres_ping (len : nat) (r : dres) : res (nat * nat) :=
+  match r with
+  | DOk [off] => Ok ((Z.to_nat off - 2)%nat, (len - Z.to_nat off)%nat)
+  | DOk _ => Panic
+  | DErr _ => Err 0
+  | DPanic => Panic
+  end.
+
+Theorem go_ping_header_is_model : forall d o1 o2, bytes_ok d ->
+  go_parsePingHeader_translated = true ->
+  dres_ping (length d) (go_parsePingHeader d o1 o2) = forget_code (ping_split (length d) (nth 1 d 0) (o1 && o2)).
+Proof.
+  intros d o1 o2 Hb _. unfold go_parsePingHeader, ping_split, gindex, gslice, go_len, go_at.
+  change (Z.to_nat 1) with 1%nat.
+  pose proof (nth_lt_256 d 1 Hb) as H1. set (b1 := nth 1 d 0) in *. clear Hb.
+  destruct (Z.of_nat (length d) <? 3)%Z eqn:H3.
+  { replace (Nat.ltb (length d) 3) with true by lia. reflexivity. }
+  replace (Nat.ltb (length d) 3) with false by lia.
+  replace (go_inb (Z.of_nat (length d)) 1) with true by (unfold go_inb; lia). cbn [negb].
+  replace (Nat.ltb 1 (length d)) with true by lia.
+  destruct (Z.of_nat (length d) <? 2 + Z.of_N b1)%Z eqn:Hh.
+  { replace (Nat.ltb (length d) (2 + N.to_nat b1)) with true by lia. reflexivity. }
+  replace (Nat.ltb (length d) (2 + N.to_nat b1)) with false by lia.
+  replace (go_inr (Z.of_nat (length d)) 2 (Z.of_N b1 + 2)) with true by (unfold go_inr; lia). cbn [negb].
+  replace (Nat.leb 2 (N.to_nat b1 + 2) && Nat.leb (N.to_nat b1 + 2) (length d)) with true by lia.
+  destruct o1; cbn [negb andb]; [|reflexivity].
+  destruct o2; cbn [negb]; [|reflexivity].
+  replace (Nat.leb (N.to_nat b1 + 2) (length d) && Nat.leb (length d) (length d)) with true by lia.
+  cbn [dres_ping forget_code]. f_equal. f_equal; lia.
+Qed.
